@@ -1047,6 +1047,7 @@ where
                 // Close (F)
                 'C' => {
                     let close: Close = (&message).try_into()?;
+                    self.forget_closed_statement(&close);
 
                     self.extended_protocol_data_buffer
                         .push_back(ExtendedProtocolData::create_new_close(message, close));
@@ -1389,6 +1390,7 @@ where
                     // Close the prepared statement.
                     'C' => {
                         let close: Close = (&message).try_into()?;
+                        self.forget_closed_statement(&close);
 
                         self.extended_protocol_data_buffer
                             .push_back(ExtendedProtocolData::create_new_close(message, close));
@@ -1527,7 +1529,8 @@ where
                                         && close.is_prepared_statement()
                                         && !close.anonymous()
                                     {
-                                        self.prepared_statements.remove(&close.name);
+                                        // (the name was forgotten when the Close arrived, see
+                                        // forget_closed_statement)
 
                                         // Queue up a close complete message to send to the client
                                         self.response_message_queue_buffer.put(close_complete());
@@ -2012,6 +2015,15 @@ where
                     client_given_name
                 )))
             }
+        }
+    }
+
+    /// The client's name -> statement map is updated when a Parse arrives, so a Close has to
+    /// be applied when it arrives as well: handling it only at Sync made
+    /// Close(s) Parse(s) Sync forget the statement that the Parse had just defined.
+    fn forget_closed_statement(&mut self, close: &Close) {
+        if self.prepared_statements_enabled && close.is_prepared_statement() && !close.anonymous() {
+            self.prepared_statements.remove(&close.name);
         }
     }
 
